@@ -506,6 +506,9 @@ class HistRun:
         if k == "put_uidclash":
             c = self.pick_coll(("calendar",))
             uid = r.choice(self.uid_pool)
+            held = sorted({mm.uid for mm in c.members.values() if mm.uid})
+            if held and r.random() < 0.4:
+                uid = r.choice(held)
             if c.members and r.random() < 0.5:
                 name = r.choice(sorted(c.members))
             else:
@@ -784,7 +787,7 @@ class HistRun:
             elif k == "lookalike" and names and self.world.prefix != "/":
                 # shares the route prefix only as a string prefix
                 pre = self.world.prefix.rstrip("/")
-                out.append({"raw": pre + c.path.lstrip("/") + urllib.parse.quote(r.choice(names))})
+                out.append({"raw": urllib.parse.quote(pre + c.path.lstrip("/") + r.choice(names), safe="/")})
             elif k == "coll":
                 out.append({"rel": c.path})
             elif k == "malformed":
